@@ -46,6 +46,7 @@ def strategy(tier):
         max_machines=5,
         max_total=30 if big else 20,
         benchmarks=("ft06",),
+        big_ok=2,
     )
     return st.fixed_dictionaries(
         {
